@@ -75,7 +75,7 @@ impl<'a> Gen<'a> {
         _ => format!("{}", self.rng.range(-3, 40)),
       };
     }
-    match self.rng.below(13) {
+    match self.rng.below(14) {
       0 => format!("({} + {})", self.num(d - 1, vars), self.num(d - 1, vars)),
       1 => format!("({} - {})", self.num(d - 1, vars), self.num(d - 1, vars)),
       2 => format!("({} * {})", self.num(d - 1, vars), self.num(d - 1, vars)),
@@ -94,6 +94,18 @@ impl<'a> Gen<'a> {
         format!("(function({}, {}) {})({}: {}, {}: {})", x, y, self.num(d - 1, &inner), y, self.num(d - 1, vars), x, self.num(d - 1, vars))
       }
       9 => format!("({} / {})", self.num(d - 1, vars), self.rng.pick(&["2", "4", "5", "8", "10", "0.5", "0"])),
+      12 => {
+        // typed parameters: the argument is coerced (null, singleton wrap / unwrap)
+        let x = self.var("p");
+        let (t, k) = *self.rng.pick(&[("number", K::Num), ("string", K::Any), ("list<number>", K::List), ("Any", K::Num)]);
+        let body = if k == K::List { format!("{}[1]", x) } else { self.num(d - 1, &vars.with(&x, k)) };
+        let arg = match self.rng.below(3) {
+          0 => self.num(d - 1, vars),
+          1 => format!("[{}]", self.num(d - 1, vars)),
+          _ => self.any(d - 1, vars),
+        };
+        format!("(function({}: {}) {})({})", x, t, body, arg)
+      }
       10 => format!("{{a: {}, b: a + 1}}.b", self.num(d - 1, vars)),
       11 => format!("{}[{}]", self.list(d - 1, vars), self.num(d - 1, vars)),
       _ => format!("({})", self.num(d - 1, vars)),
@@ -163,7 +175,10 @@ impl<'a> Gen<'a> {
       11 => format!("({} = {})", self.any(d - 1, vars), self.any(d - 1, vars)),
       12 => format!("(if {} then {} else {})", self.boolean(d - 1, vars), self.boolean(d - 1, vars), self.boolean(d - 1, vars)),
       13 => format!("({} in ({}, {}))", self.num(d - 1, vars), self.num(d - 1, vars), self.num(d - 1, vars)),
-      14 => format!("({} in (< {}, > {}))", self.num(d - 1, vars), self.num(d - 1, vars), self.num(d - 1, vars)),
+      14 => {
+        let (o1, o2) = *self.rng.pick(&[("<", ">"), ("<=", ">="), (">=", "<"), (">", "<=")]);
+        format!("({} in ({} {}, {} {}))", self.num(d - 1, vars), o1, self.num(d - 1, vars), o2, self.num(d - 1, vars))
+      }
       _ => format!("({} = {})", self.list(d - 1, vars), self.list(d - 1, vars)),
     }
   }
@@ -531,6 +546,8 @@ pub fn run_with(cfg: &Cfg, property: &str) -> Report {
   rep.extra.insert("unparsable_generated".into(), json!(unparsable));
   rep.extra.insert("skipped_unsupported".into(), json!(skipped));
   rep.extra.insert("construct_pairs_covered".into(), json!(pair_cov.len()));
+  let tags: BTreeSet<String> = pair_cov.iter().flat_map(|(a, b)| vec![a.clone(), b.clone()]).collect();
+  rep.extra.insert("ast_node_kinds_covered".into(), json!(tags.iter().cloned().collect::<Vec<String>>()));
   rep.extra.insert("repeat_failures".into(), json!(repeat_failures));
   rep.model_requests = model.requests;
   rep
